@@ -761,6 +761,42 @@ pub fn gen_c20(dir: &str, thorough: bool) {
         }
     }
     std::fs::write(format!("{}/manifest_big.json", dir), serde_json::to_string(&big).unwrap()).unwrap();
+    // a 64-base chromosome whose value (bigWig) / depth (bigBed) at base p is p + 1: the extremes
+    // of any range sit on its first and last base, so bins that together do not span the whole
+    // range show up in the minimum / maximum whatever way fractional widths are rounded
+    let mut frac = vec![];
+    for bed in [false, true] {
+        let len = 64u32;
+        let spec = EncSpec {
+            bed,
+            le: true,
+            compress: bed,
+            version: 4,
+            chroms: vec![EncChrom {
+                name: "c".into(),
+                size: len,
+                wig: if bed { vec![] } else { vec![WigSec::T1((0..len).map(|p| (p, p + 1, (p + 1) as f32)).collect())] },
+                bed: if bed { vec![(0..len).map(|q| (q, len, format!("e{}", q))).collect()] } else { vec![] },
+            }],
+            chrom_block: 64,
+            chrom_level_order: false,
+            chrom_ids_in_given_order: false,
+            chrom_ids_reverse_of_keys: false,
+            fanout: 4,
+            placement: Placement::LevelOrder,
+            zooms: vec![],
+            zoom_ips: 2,
+            zoom_blocks_span_chroms: false,
+            trailing_magic: true,
+            index_last: false,
+            no_summary: false,
+            autosql: None,
+        };
+        let path = format!("{}/frac.{}", dir, if bed { "bb" } else { "bw" });
+        std::fs::write(&path, encode(&spec).bytes).unwrap();
+        frac.push(json!({"path": path, "kind": if bed { "bigbed" } else { "bigwig" }, "length": len}));
+    }
+    std::fs::write(format!("{}/manifest_frac.json", dir), serde_json::to_string(&frac).unwrap()).unwrap();
     std::fs::write(format!("{}/manifest.json", dir), serde_json::to_string(&manifest).unwrap()).unwrap();
     println!("GENERATED {}", manifest.len());
 }
